@@ -62,6 +62,9 @@ def judge(v, obs):
         return "ill-posed input (%s) raised %s (%s)" % (kv.summary(v), obs["verdict"], obs.get("msg"))
     if stage_rank(obs["stage"]) > stage_rank(dl):
         return "ill-posed input (%s) rejected only at order %s, deadline %s" % (kv.summary(v), obs["stage"], dl)
+    if obs.get("repeat") and any(r not in kv.LISTED for r in obs["repeat"]):
+        return "ill-posed input (%s) rejected at order %s, but the repeated request of element %s was answered: %s" % (
+            kv.summary(v), obs["stage"], obs.get("element"), obs["repeat"])
     return None
 
 
@@ -110,6 +113,17 @@ def oracle_illposed(ctx, ncases=None):
         r = judge(v, obs)
         if r is not None:
             failures.append(dict(what=r, input=dict(kind="illposed", vcase=v), observed=obs))
+        if any(d["kind"] in ("shared1", "shared2") for d in v["damages"]) and v["solver"] is None and not v["case"]["fully"]:
+            # the same ill-posed problem with a solver the user built with solve_sylvester_diagonal
+            import copy
+            v2 = copy.deepcopy(v)
+            v2["solver"] = "diag_user"
+            v2["case"]["fully"] = None
+            if max(v2["case"]["sub"]) >= 1:
+                obs2 = kv.observe(v2, upto=2)
+                r2 = judge(v2, obs2)
+                if r2 is not None:
+                    failures.append(dict(what="user-built solve_sylvester_diagonal: " + r2, input=dict(kind="illposed", vcase=v2), observed=obs2))
         if not wellposed or v["case"]["fmt"] != "sympy":
             nt.add(core.canon(v))
         if len(samples) < 3:
